@@ -1,15 +1,18 @@
 #!/bin/sh
-# Re-validate the checks against every kept seeded change: apply, run the quick check of the seed's property, revert.
+# Re-validate the checks against every kept seeded change WITHOUT touching /repo: the change is applied to a scratch working
+# tree and the quick check of the seed's property runs against it (VERIF_REPO mode of tools/check.py).
 # usage: tools/selftest.sh [seed dir names...]     prints one line per seed: DETECTED / MISSED
 cd /verif
-[ -n "$(git -C /repo status --short)" ] && { echo "/repo is not clean"; exit 2; }
+W=/tmp/selftest.$$
+mkdir -p $W
+git -C /repo worktree add -q --detach $W/repo HEAD || exit 2
 seeds=${*:-$(ls seeded)}
 miss=0
 for s in $seeds; do
   prop=$(python3 -c "import json;print(json.load(open('seeded/$s/meta.json'))['property'])")
-  git -C /repo apply /verif/seeded/$s/patch.diff || { echo "$s: patch does not apply"; continue; }
-  out=$(./check $prop 2>&1)
-  git -C /repo checkout -- .
+  git -C $W/repo apply /verif/seeded/$s/patch.diff || { echo "$s: patch does not apply"; continue; }
+  out=$(VERIF_REPO=$W/repo VERIF_CACHE=$W/cache ./check $prop 2>&1)
+  git -C $W/repo checkout -q -- .
   if echo "$out" | grep -q "^VIOLATION property=$prop"; then
     tail=$(echo "$out" | grep "^VIOLATION" | head -1 | grep -q "no-failing-input-found" && echo " (broken obligation only)")
     echo "$s: DETECTED by ./check $prop$tail"
@@ -18,3 +21,4 @@ for s in $seeds; do
   fi
 done
 echo "missed: $miss"
+git -C /repo worktree remove --force $W/repo; rm -rf $W; git -C /repo worktree prune
